@@ -346,13 +346,43 @@ def harness_batch(reqs, timeout=600, jobs=8):
     return out
 
 
-def run_driver(cases_path, out_path, timeout=900):
-    with open(cases_path, "rb") as fin, open(out_path, "wb") as fout:
+def run_driver(cases_path, out_path, timeout=900, jobs=16):
+    """Runs the model driver over a case file, sharded round-robin over `jobs`
+    processes; the output file has the results in case order."""
+    import concurrent.futures
+    lines = open(cases_path, "rb").read().split(b"\n")
+    if lines and lines[-1] == b"":
+        lines.pop()
+    jobs = max(1, min(jobs, len(lines) // 200 + 1))
+    shards = [lines[i::jobs] for i in range(jobs)]
+
+    def work(shard):
         try:
-            p = subprocess.run([DRIVER], stdin=fin, stdout=fout, stderr=subprocess.PIPE, timeout=timeout)
-            return p.returncode == 0, p.stderr.decode("utf-8", "replace")
+            p = subprocess.run([DRIVER], input=b"\n".join(shard) + b"\n", stdout=subprocess.PIPE,
+                               stderr=subprocess.PIPE, timeout=timeout)
+            if p.returncode != 0:
+                return None, p.stderr.decode("utf-8", "replace")
+            res = p.stdout.split(b"\n")
+            if res and res[-1] == b"":
+                res.pop()
+            return res, ""
         except subprocess.TimeoutExpired:
-            return False, "driver timeout"
+            return None, "driver timeout"
+
+    with concurrent.futures.ThreadPoolExecutor(jobs) as ex:
+        parts = list(ex.map(work, shards))
+    for res, err in parts:
+        if res is None:
+            return False, err
+    out = [b""] * len(lines)
+    for j, (res, _) in enumerate(parts):
+        if len(res) != len(shards[j]):
+            return False, "driver returned %d results for %d cases" % (len(res), len(shards[j]))
+        for k, r in enumerate(res):
+            out[j + k * jobs] = r
+    with open(out_path, "wb") as f:
+        f.write(b"\n".join(out) + b"\n")
+    return True, ""
 
 
 def run_driver_lines(lines, timeout=900):
